@@ -29,59 +29,138 @@ def run(repo, chk, tier):
     wiring(repo, chk)
 
 
+SUBSETTING = {'head', 'tail', 'iloc', 'loc', 'sample', 'drop_duplicates', 'query', 'nlargest', 'nsmallest', 'dropna', 'truncate', 'take', 'filter', 'where', 'mask'}
+
+
+def _row_binding(fn, lp, table):
+    """How one iteration of the row loop sees its row: {local name: term over ('role', 'row')} for the accepted ways of visiting every row of the
+    table (iterrows; zip over whole columns), or a (verdict, reason) pair"""
+    m = fn.module
+    it = term_of(fn, lp.iter, inline=True)
+    E = lambda s: expected_term(m, s)
+    if it == E(f'{table}.iterrows()') and isinstance(lp.target, ast.Tuple) and len(lp.target.elts) == 2 and isinstance(lp.target.elts[1], ast.Name):
+        return {lp.target.elts[1].id: ('role', 'row')}
+    if it[0] == 'call' and it[1] == ('name', 'zip') and not it[3] and isinstance(lp.target, (ast.Tuple, ast.List)) and len(lp.target.elts) == len(it[2]) and all(isinstance(x, ast.Name) for x in lp.target.elts):
+        out = {}
+        for nm, col_t in zip(lp.target.elts, it[2]):
+            col = None
+            for c in ('FeatureA', 'FeatureB', 'Score'):
+                if col_t in (E(f"{table}['{c}'].tolist()"), E(f"{table}['{c}'].values"), E(f"{table}['{c}']"), E(f"list({table}['{c}'])"), E(f"{table}['{c}'].to_list()"), E(f"{table}.{c}"), E(f"{table}.{c}.tolist()"), E(f"{table}.{c}.values")):
+                    col = c
+            if col is None:
+                return ('unsure', f'a column handed to zip() is not a whole column of the triplet table: {show(col_t)[:80]}')
+            out[nm.id] = ('sub', ('role', 'row'), ('str', col))
+        return out
+    from ..terms import walk_term
+    ops = {x[2] for x in walk_term(it) if isinstance(x, tuple) and len(x) == 3 and x[0] == 'attr'} | {'<slice>' for x in walk_term(it) if isinstance(x, tuple) and x and x[0] == 'slice'}
+    if any(x == ('name', table) for x in walk_term(it)) and ops & (SUBSETTING | {'<slice>'}):
+        return ('bad', f'the loop ranges over a subset of the triplet table ({", ".join(sorted(ops & (SUBSETTING | {"<slice>"})))}): rows outside it never reach the summary')
+    return ('unsure', f'the way the rows of the triplet table are visited is not recognised: {show(it)[:100]}')
+
+
 def selection(repo, chk):
+    """One iteration of the row loop of generate_final_ranking evaluated as paths (forking on its tests): what is appended must be
+    [other name, score] exactly when the label equals the part of FeatureA (resp. FeatureB) before the first '-', and nothing otherwise."""
+    from ..match import run_paths, within_vocabulary
     fn = repo.func(TS, 'generate_final_ranking')
     m = fn.module
-    label = fn.params[1]
-    loops = [n for n in own_nodes(fn.node) if isinstance(n, ast.For)]
+    table, label = fn.params[0], fn.params[1]
+    loops = [n for n in fn.node.body if isinstance(n, ast.For)]
     if len(loops) != 1:
-        chk.unsure('C18.1', 'R14', fn.site(), 'for _, row in triplets.iterrows()', 'row loop not found')
+        comp = [n for n in own_nodes(fn.node) if isinstance(n, (ast.ListComp, ast.GeneratorExp))]
+        chk.unsure('C18.1', 'R14', fn.site(), 'for _, row in triplets.iterrows()', 'row loop not found' + (' (the selection is written as a comprehension)' if comp else ''))
         return
     lp = loops[0]
-    it = term_of(fn, lp.iter, inline=True)
-    ok_it = it == expected_term(m, f'{fn.params[0]}.iterrows()') and isinstance(lp.target, ast.Tuple) and len(lp.target.elts) == 2
-    chk.expect(ok_it, 'C18.1a', 'R13', fn.site(lp), ast.unparse(lp.iter), 'every row of the triplet table is visited', 'the selection must visit every row of the triplet table')
-    if not ok_it:
+    rb = _row_binding(fn, lp, table)
+    if isinstance(rb, tuple):
+        (chk.bad if rb[0] == 'bad' else chk.unsure)('C18.1a', 'R13', fn.site(lp), ast.unparse(lp.iter)[:100], rb[1])
         return
-    row = lp.target.elts[1].id
-    bound = {row: ('role', 'row'), label: ('role', 'label')}
-    ifs = [n for n in lp.body if isinstance(n, ast.If)]
-    if len(ifs) != 1:
-        chk.unsure('C18.1b', 'R14', fn.site(lp), 'if label == A.split("-")[0]: ... elif label == B.split("-")[0]: ...', f'{len(ifs)} selection statements in the loop')
-        return
-    top = ifs[0]
+    chk.ok('C18.1a', 'R13', fn.site(lp), ast.unparse(lp.iter)[:100], 'every row of the triplet table is visited')
+    bound = dict(rb)
+    bound[label] = ('role', 'label')
     E = lambda s: expected_term(m, s, {'row': ('role', 'row'), 'label': ('role', 'label')})
-    branches = []
-    cur = top
-    while True:
-        branches.append((cur.test, cur.body))
-        if len(cur.orelse) == 1 and isinstance(cur.orelse[0], ast.If):
-            cur = cur.orelse[0]
-            continue
-        tail = cur.orelse
-        break
-    seen = {}
-    for test, body in branches:
-        t = term_of(fn, test, bound, inline=True)
-        side = None
-        for s, o in (('FeatureA', 'FeatureB'), ('FeatureB', 'FeatureA')):
-            if t == E(f"label == row['{s}'].split('-')[0]"):
-                side, other = s, o
-        if side is None:
-            chk.bad('C18.1b', 'R14', fn.site(test), ast.unparse(test), f"a row must be selected iff the label equals the part of FeatureA / FeatureB before the first '-' (exact equality); found {show(t)[:140]}")
-            continue
-        aps = [c for s in body for c in ast.walk(s) if isinstance(c, ast.Call) and isinstance(c.func, ast.Attribute) and c.func.attr == 'append']
-        okb = False
-        if len(aps) == 1 and isinstance(aps[0].args[0], (ast.List, ast.Tuple)) and len(aps[0].args[0].elts) == 2:
-            e = aps[0].args[0].elts
-            okb = term_of(fn, e[0], bound, inline=True) == E(f"row['{other}']") and term_of(fn, e[1], bound, inline=True) == E("row['Score']")
-        chk.expect(okb, f'C18.1c-{side}', 'R15', fn.site(aps[0]) if aps else fn.site(test), ast.unparse(aps[0]) if aps else 'append', f'label on side {side}: contributes the other name with the row\'s score',
-                   f'when the label is {side}, the row must contribute [{other}, Score]')
-        seen[side] = True
-    chk.expect(set(seen) == {'FeatureA', 'FeatureB'} and not tail, 'C18.1d', 'R7', fn.site(top), 'label as A / label as B', 'both orientations are used, nothing else is added', 'rows must be selected for the label on either side, and only those')
+    eq = {'FeatureA': E("label == row['FeatureA'].split('-')[0]"), 'FeatureB': E("label == row['FeatureB'].split('-')[0]")}
+    field = {'FeatureA': E("row['FeatureA']"), 'FeatureB': E("row['FeatureB']"), 'Score': E("row['Score']")}
+    cn = Canon(m, Scope(None))
+    paths = run_paths(fn, None, None, max_forks=4, body=lp.body)
+    if paths is None:
+        chk.unsure('C18.1b', 'R14', fn.site(lp), 'row loop body', 'too many tests in one iteration of the row loop')
+        return
     r = returns(fn)
+    out_list = r[0].value.id if len(r) == 1 and isinstance(r[0].value, ast.Name) else None
+    seen_sides = set()
+    n_skip = 0
+    undecided = False
+    for assume, res in paths:
+        desc = ', '.join(f'{ast.unparse(t)[:50]} is {v}' for t, v in res.assumed) or 'no test'
+        if res.unknown is not None:
+            chk.unsure('C18.1b', 'R14', fn.site(res.unknown), ast.unparse(res.unknown)[:100], 'a statement of the row loop is outside the path vocabulary')
+            undecided = True
+            continue
+        val, strange = {}, []
+        for t, v in res.assumed:
+            tt = term_of(fn, t, bound, inline=False)
+            hit = False
+            for side, atom in eq.items():
+                if tt == atom:
+                    val[side], hit = v, True
+                elif cn._not(tt) == atom:
+                    val[side], hit = (not v), True
+            if not hit:
+                strange.append((t, tt))
+        items = []
+        for c in res.calls:
+            call = c['call']
+            if isinstance(call.func, ast.Attribute) and call.func.attr == 'append' and isinstance(call.func.value, ast.Name) and len(call.args) == 1:
+                items.append((c, term_of(fn, call.args[0], bound, inline=False)))
+            elif isinstance(call.func, ast.Attribute) and call.func.attr in ('extend', 'insert', 'add', 'update'):
+                strange.append((c['node'], None))
+        items += [(u, None) for u in res.updates]
+        if strange:
+            t0, tt0 = strange[0]
+            node0 = t0 if hasattr(t0, 'lineno') else lp
+            from ..terms import walk_term as _wt
+            weaker = tt0 is not None and any(x == ('role', 'label') for x in _wt(tt0)) and any(x == ('role', 'row') for x in _wt(tt0)) and \
+                any(isinstance(x, tuple) and len(x) == 3 and x[0] == 'attr' and x[2] in ('startswith', 'endswith', 'find', 'rfind', 'count', 'index', 'contains', 'match', 'search') for x in _wt(tt0))
+            if weaker:
+                chk.bad('C18.1b', 'R14', fn.site(node0), ast.unparse(t0)[:100], f"a row must be selected iff the label EQUALS the part of FeatureA / FeatureB before the first '-'; a prefix / substring test also selects rows of other features whose name merely starts with or contains the label: {show(tt0)[:120]}")
+            elif tt0 is not None and within_vocabulary(tt0, list(eq.values())) and any(x == ('role', 'label') for x in __import__('sa.terms', fromlist=['walk_term']).walk_term(tt0)):
+                chk.bad('C18.1b', 'R14', fn.site(node0), ast.unparse(t0)[:100], f"a row must be selected iff the label equals the part of FeatureA / FeatureB before the first '-' (exact equality); found the test {show(tt0)[:140]}")
+            else:
+                chk.unsure('C18.1b', 'R14', fn.site(node0), ast.unparse(t0)[:100] if hasattr(t0, 'lineno') else desc, 'a test / effect of the row loop that is not one of the two selection tests decides what is collected')
+            undecided = True
+            continue
+        pair = lambda other: ('list', field[other], field['Score'])
+        pair_t = lambda other: ('tuple', field[other], field['Score'])
+        a_, b_ = val.get('FeatureA'), val.get('FeatureB')
+        allowed = []
+        if a_ is True:
+            allowed = ['FeatureB'] + (['FeatureA'] if b_ is True else [])
+        elif b_ is True:
+            allowed = ['FeatureA']
+        if allowed:
+            okk = len(items) == 1 and items[0][1] is not None and any(items[0][1] in (pair(o), pair_t(o)) for o in allowed) and (out_list is None or items[0][0]['call'].func.value.id == out_list)
+            side = 'FeatureA' if a_ is True else 'FeatureB'
+            other = allowed[0]
+            site = fn.site(items[0][0]['node']) if items else fn.site(lp)
+            chk.expect(okk, f'C18.1c-{side}', 'R15', site, f'{desc}: ' + (', '.join(ast.unparse(i[0]['call'])[:60] if i[1] is not None else 'store' for i in items) or 'nothing collected'),
+                       f"label on side {side}: contributes the other name with the row's score", f'when the label is {side}, the row must contribute exactly [{other}, Score] to the returned list')
+            seen_sides.add(side)
+        elif a_ is False and b_ is False:
+            n_skip += 1
+            chk.expect(not items, 'C18.1d', 'R7', fn.site(items[0][0]['node']) if items else fn.site(lp), desc, 'a row whose names do not carry the label contributes nothing', 'a row is collected although the label is on neither side')
+        else:
+            # the path does not test one of the orientations and collects nothing for it
+            missing = [s_ for s_ in ('FeatureA', 'FeatureB') if s_ not in val]
+            if not items:
+                chk.bad('C18.1d', 'R7', fn.site(lp), desc, f'rows are selected for the label on one side only: the orientation with the label as {missing[0] if missing else "?"} is never tested')
+            else:
+                chk.bad('C18.1d', 'R7', fn.site(items[0][0]['node']), desc, 'a row is collected on a path that has not established that the label is on one of its sides')
+            undecided = True
+    if not undecided:
+        chk.expect(seen_sides == {'FeatureA', 'FeatureB'} and n_skip >= 1, 'C18.1d', 'R7', fn.site(lp), 'label as A / label as B / neither', 'both orientations are used, nothing else is added', 'rows must be selected for the label on either side, and only those')
     aps_all = calls(fn, attr='append')
-    chk.expect(len(r) == 1 and isinstance(r[0].value, ast.Name) and all(isinstance(a.func.value, ast.Name) and a.func.value.id == r[0].value.id for a in aps_all), 'C18.1e', 'origin', fn.site(r[0]) if r else fn.site(), ast.unparse(r[0]) if r else 'return', 'the collected rows are returned', 'the collected rows must be returned')
+    chk.expect(out_list is not None and all(isinstance(a.func.value, ast.Name) and a.func.value.id == out_list for a in aps_all), 'C18.1e', 'origin', fn.site(r[0]) if r else fn.site(), ast.unparse(r[0]) if r else 'return', 'the collected rows are returned', 'the collected rows must be returned', soft=True)
 
 
 def summary_frame(repo, chk):
@@ -225,41 +304,40 @@ def interactions(repo, chk):
         # the collection: for every row, for every constituent of an interaction name: store[constituent].append(score of the row)
         feeds = [u for u in res.updates if u['kind'] == 'foreach' and u['op'] == 'call' and u['method'] == 'append']
         store_name = None
+        from .common import loop_terms
+        two_level = []
         for u in feeds:
-            chain = u.get('chain', [])
+            chain, key, val, guard, a_, tgt_t = loop_terms(fn, u)
             if len(chain) != 2:
                 continue
-            row_names, row_it, row_shape = chain[0]
-            row_t = term_of(fn, row_it, inline=False)
-            if row_t != E(f'{df}.iterrows()'):
-                problems.setdefault('C18.4f', (u['node'], 'all rows of the feature summary must be visited', row_t, [E(f'{df}.iterrows()'), E(f'{df}.itertuples()')]))
+            two_level.append(u)
+            ROW = ('lvar', 0, 1)          # second position of the (index, row) pairs of iterrows()
+            ER = lambda s_: expected_term(m, s_, {'row': ROW, 'el': ('lvar', 1, 0)})
+            if chain[0] != E(f'{df}.iterrows()'):
+                problems.setdefault('C18.4f', (u['node'], 'all rows of the feature summary must be visited', chain[0], [E(f'{df}.iterrows()'), E(f'{df}.itertuples()')]))
                 continue
             oks.add('C18.4f')
-            rowv = row_shape.elts[1].id if isinstance(row_shape, ast.Tuple) and len(row_shape.elts) == 2 and isinstance(row_shape.elts[1], ast.Name) else None
-            if rowv is None:
-                continue
-            B = {rowv: ('role', 'row')}
-            ER = lambda s_: expected_term(m, s_, {'row': ('role', 'row')})
-            el_names, el_it, el_shape = chain[1]
-            it_t = term_of(fn, el_it, B, inline=False)
-            if it_t == ER("row['Feature'].split('-')[0].split(' AND ')"):
+            if chain[1] == ER("row['Feature'].split('-')[0].split(' AND ')"):
                 oks.add('C18.4b')
             else:
-                problems.setdefault('C18.4b', (u['node'], f"constituents must be name.split('-')[0].split(' AND '); found {show(it_t)[:100]}", it_t, [ER("row['Feature'].split('-')[0].split(' AND ')")]))
-            tgt = u['target']
-            okc = isinstance(tgt, ast.Subscript) and isinstance(tgt.value, ast.Name) and isinstance(el_shape, ast.Name) and ast.unparse(tgt.slice) == el_shape.id \
-                and u['value'] is not None and term_of(fn, u['value'], B, inline=False) == ER(f"row[{col}]")
+                problems.setdefault('C18.4b', (u['node'], f"constituents must be name.split('-')[0].split(' AND '); found {show(chain[1])[:100]}", chain[1], [ER("row['Feature'].split('-')[0].split(' AND ')")]))
+            # the receiver: store[constituent] of a defaultdict(list), or store.setdefault(constituent, [])
+            store_t = None
+            if tgt_t[0] == 'sub' and tgt_t[1][0] == 'name' and tgt_t[2] == ('lvar', 1, 0):
+                store_t = tgt_t[1][1]
+            elif tgt_t[0] == 'call' and tgt_t[1][0] == 'attr' and tgt_t[1][2] == 'setdefault' and tgt_t[1][1][0] == 'name' and len(tgt_t[2]) == 2 and tgt_t[2][0] == ('lvar', 1, 0) and tgt_t[2][1] == ('list',):
+                store_t = tgt_t[1][1][1]
+            okc = store_t is not None and a_ and a_[0] == ER(f"row[{col}]")
             if okc:
                 oks.add('C18.4c')
-                store_name = tgt.value.id
+                store_name = store_t
             else:
                 problems.setdefault('C18.4c', (u['node'], 'each constituent must collect the score of the row it occurs in'))
-            g = term_of(fn, u['guard'], B, inline=False) if u.get('guard') is not None else None
-            if g in (ER("'AND' in row['Feature']"), ER("' AND ' in row['Feature']")):
+            if guard in (ER("'AND' in row['Feature']"), ER("' AND ' in row['Feature']")):
                 oks.add('C18.4d')
             else:
-                problems.setdefault('C18.4d', (u['node'], f'only names containing AND may contribute to the aggregated table; guard: {show(g)[:80] if g else "none"}'))
-        if feeds and not any(len(u.get('chain', [])) == 2 for u in feeds):
+                problems.setdefault('C18.4d', (u['node'], f'only names containing AND may contribute to the aggregated table; guard: {show(guard)[:80] if guard else "none"}'))
+        if feeds and not two_level:
             u = feeds[0]
             chk.unsure('C18.4b', 'R15', fn.site(u['node']), ast.unparse(u['node'])[:100], "the scores are collected, but not by a loop over name.split('-')[0].split(' AND '): how the constituents are obtained is outside the vocabulary of the accepted forms")
         if not feeds:
